@@ -14,10 +14,20 @@ MANIFEST = {
             'party stopping at an arbitrary byte), under any schedule, every output completed in the faulty run is completed '
             'with the same value in the completed crash-free run. Fault enumeration in the multi-party simulator: each party x '
             'crash points at/around every sampled frame boundary and mid-frame of its outgoing byte streams x 3 fault modes; '
-            'completed outputs of survivors compared with the crash-free run and the Python oracle.',
-    'note': 'partial: the Coq theorem is about the abstract monotone-system model; that real parties are such monotone functions '
-            'rests on schedule-independent unique labels (C08/C09) and on prefix parsing of cut byte streams (Frame.v, C10) and is '
-            'exercised, not proved, here. OS-level behaviour of a dying TCP peer beyond "a byte prefix is delivered, then '
+            'completed outputs of survivors compared with the crash-free run and the Python oracle. Executable instance '
+            '(CrashExec.v): message-level model of m parties running straight-line share-level programs (input, add, mul with '
+            'resharing by the 2t+1 dealers, output) over Z_p; sends/results proved monotone in the delivered set, a crashing party '
+            '(any subset, in particular any prefix in any send order, of its messages) proved a sub-behaviour, hence for every '
+            'program, inputs, tapes, cut and schedule no survivor output differs from the crash-free one, and run_closed gives '
+            'exactly the outputs that complete when everything sent is delivered; tied every run by comparing, for EVERY cut '
+            'position (frame boundaries and mid-frame) of each crashing party, the completed (party, output, value) set and the '
+            'full set of wire messages of the real implementation with the model evaluated by vm_compute.',
+    'note': 'partial: the abstract Coq theorem is about monotone message systems; that real parties are such monotone functions '
+            'is proved for the executable model of straight-line share-level programs without PRSS (CrashExec.v, ops issued at '
+            'once as in MPyC dataflow evaluation; the crashing party\'s send order is a parameter read from the real frame log) '
+            'and tied to the code by exact correspondence; for the rest of the runtime (comparisons, PRSS, programs awaiting '
+            'intermediate results, handshake) it rests on schedule-independent unique labels (C08/C09) and on prefix parsing of cut '
+            'byte streams (Frame.v, C10) and is exercised by crash injection, not proved. OS-level behaviour of a dying TCP peer beyond "a byte prefix is delivered, then '
             'optionally connection_lost" is outside the model. Programs use operations whose values do not depend on the random tape.',
     'technique': 'Coq simulation theorem (monotone message systems) + exhaustive-by-offset crash injection in the multi-party simulator',
 }
@@ -251,5 +261,15 @@ def run(ctx):
     ctx.log('%d crash runs, %d completed survivor outputs checked' % (nruns, ncompleted))
     if nruns == 0:
         ctx.broken.append({'kind': 'harness', 'what': 'no crash run executed'})
-    if ctx.broken and not ctx.violations:
+    # ---- executable crash model (CrashExec.v): exact correspondence of which outputs complete, with which values, and
+    # of the full set of wire messages, for every cut position of straight-line share-level programs
+    if ok:
+        from props import c36_model
+        nb = len(ctx.broken)
+        summ = c36_model.run_part(ctx)
+        ctx.log('executable crash model: %s' % {k: summ[k] for k in sorted(summ) if not isinstance(summ[k], (list, dict))})
+        model_reported = len(ctx.broken) > nb
+    else:
+        model_reported = False
+    if ctx.broken and not ctx.violations and not model_reported:
         ctx.unproved('C36 model theorem / crash enumeration', {'broken': ctx.broken[:5]})
